@@ -439,12 +439,26 @@ class MetaDataReplace(MosFile):
         """
         return self.base_tag.find('roSlug').text
 
+    def _find_target(self, ro: RunningOrder, source: Element) -> Tuple[Optional[Element], Optional[int]]:
+        """
+        Find the metadata tag in *ro* which *source* replaces and return a tuple
+        of (element, index). A ``mosExternalMetadata`` block only replaces a
+        block with the same ``mosSchema``.
+        """
+        if source.tag != 'mosExternalMetadata':
+            return find_child(parent=ro.base_tag, child_tag=source.tag)
+        mos_schema = source.findtext('mosSchema')
+        for i, child in enumerate(ro.base_tag):
+            if child.tag == source.tag and child.findtext('mosSchema') == mos_schema:
+                return (child, i)
+        return (None, None)
+
     def merge(self, ro: RunningOrder) -> RunningOrder:
         """
         Merge into the :class:`RunningOrder` object provided.
         """
         for source in self.base_tag:
-            target, target_index = find_child(parent=ro.base_tag, child_tag=source.tag)
+            target, target_index = self._find_target(ro, source)
             if target is None:
                 insert_node(parent=ro.base_tag, node=copy.deepcopy(source), index=len(ro.base_tag))
             else:
